@@ -936,6 +936,10 @@ func (ctx Ctx) compositeLiteral(e *ast.CompositeLit) coq.Expr {
 
 func (ctx Ctx) structLiteral(info structTypeInfo,
 	e *ast.CompositeLit) coq.StructLiteral {
+	if info.name == "sync.Mutex" || info.name == "sync.Cond" || info.name == "sync.WaitGroup" {
+		// these are opaque in GooseLang and created by new(...) / sync.NewCond
+		ctx.unsupported(e, "composite literal of %s", info.name)
+	}
 	ctx.dep.addDep(info.name)
 	lit := coq.NewStructLiteral(info.name)
 	for _, el := range e.Elts {
